@@ -97,10 +97,44 @@ def task(args):
     return p
 
 
+def large_task(args):
+    """Many updates per epoch (float arithmetic on the counters is exact only for small numbers): every updates-per-epoch
+    value in a range, batch size 1 or 2, an epochs budget of 3, no or one simple side config, checkpoints at epochs 1 and 2."""
+    upes, tier = args
+    p = Partial()
+    cfg_sets = [(), ((1, None, None, 1, 1, None),), ((None, 7, None, 2, 2, None),)]
+    for upe in upes:
+        for B, dl in ((1, True), (2, True), (2, False)):
+            geo = (upe * B, B, dl, None)
+            bud = ('epochs', 3)
+            for cfgs in cfg_sets:
+                model, marks = ref.trace(geo, bud, cfgs, geo[0] * ic.MAIN_DLEN_FACTOR)
+                for k in (1, 2):
+                    for form in ("start_epoch", "start_update", "start_sample"):
+                        st, kind, detail, ntr, suffix = check_one(geo, bud, cfgs, k, form, model, marks)
+                        p.evaluations += 1
+                        p.count(f"{form}:{st}")
+                        if st == "rejected" or st == "n/a":
+                            continue
+                        p.traces += 1
+                        p.transitions += ntr
+                        if st == "violation":
+                            p.violation(signature(kind, geo, bud, cfgs, form, detail.get("culprit")) + "|many_updates_per_epoch",
+                                        dict(geo=geo, bud=bud, cfgs=cfgs, k=k, form=form), f"{kind}: {detail}")
+                        else:
+                            p.state((geo, bud[0], k, marks[k][1], marks[k][2]))
+    p.observe(("large", tuple(upes)))
+    return p
+
+
 def run(run):
     b = bounds(run.tier)
     geos = sorted(ic.geometries(b["maxN"]), key=lambda g: -g[0])
     run.pmap(task, [(g, run.tier, run.seed) for g in geos])
+    hi = 130 if run.tier == "quick" else 400
+    upes = list(range(8, hi + 1))
+    run.pmap(large_task, [(upes[i:i + 8], run.tier) for i in range(0, len(upes), 8)])
+    run.extra.update(many_updates_per_epoch=f"8..{hi} (batch size 1 / 2, epochs budget 3, checkpoints 1 and 2, all three forms)")
     run.extra.update(bounds=dict(N=f"1..{b['maxN']}", config_sets=len(config_sets(b, run.seed)),
                                  deep_epoch_budgets=f"{list(b['deep_epochs'])} for N<={b['deepN']} (no / one side config)"),
                      geometries=len(geos))
